@@ -163,6 +163,8 @@ class Ctx:
         if drain:
             args.append("-drain")
         traces, outs = vlib.drive(recs, self.seed, d, tag="t", extra_args=args)
+        while vlib.CRASHES:
+            self.findings.append(dict(kind="GO", reason=vlib.CRASHES.pop(0), trace=None, line=0, ev="run", p="-", run=None, idx=None))
         for o in outs:
             for line in o.splitlines():
                 if line.startswith("PANIC"):
@@ -397,6 +399,7 @@ def c04(ctx):
         ctx.export_validate("c04x-v2", dict(PolA=1, PolB=3, Setup="ake", MaxSend=2, MaxFlight=2), "fifo-data", drain=True)
         ctx.random_validate("data", 48, 60)
         ctx.random_validate("fragsweep", 16, 30)
+        ctx.random_validate("lensweep", 16, 8)
         frag_model(ctx, sender=False)
     else:
         ctx.model("c04-v3-5x4", dict(DATA33, MaxSend=5, MaxFlight=4), inv)
@@ -406,6 +409,7 @@ def c04(ctx):
         ctx.export_validate("c04x-v2", dict(PolA=1, PolB=3, Setup="ake", MaxSend=3, MaxFlight=3), "fifo-data", drain=True)
         ctx.random_validate("data", 400, 200)
         ctx.random_validate("fragsweep", 64, 120)
+        ctx.random_validate("lensweep", 64, 16)
         frag_model(ctx, sender=False)
 
 
@@ -537,6 +541,8 @@ def c07(ctx):
         ctx.model("c07-" + name, c, invariants=["QuietImpliesDone"], properties=["Completes"], spec="FairSpec", timeout=1800)
         ctx.export_validate("c07x-" + name, c, "ake", drain=True)
     ctx.random_validate("akestart", 64 if ctx.quick() else 640, 30)
+    # key-exchange messages arriving (again) inside or right after a session must be answered as the protocol says
+    ctx.attack_catalogue("ake")
 
 
 def c06(ctx):
@@ -692,7 +698,7 @@ def c12(ctx):
                         drain=True, maxsched=400 if q else 6000)
     ctx.random_validate("smpdev", 64 if q else 960, 3 if q else 6)
     ctx.random_validate("smpdeg", 32, 1)
-    ctx.random_validate("smpcount", 80, 1)
+    ctx.random_validate("smpcount", 128, 1)
     ctx.random_validate("smp", 32 if q else 320, 4 if q else 10)
 
 
@@ -822,6 +828,7 @@ def c10(ctx):
     ctx.random_validate("fragsweep", 8 if q else 32, 30)
     ctx.random_validate("life", 32 if q else 320, 60)
     ctx.random_validate("shortdh", 16 if q else 64, 4 if q else 8)
+    ctx.random_validate("lensweep", 16 if q else 64, 8 if q else 16)
     ctx.attack_catalogue("ake")
 
 
@@ -955,7 +962,7 @@ def c13(ctx):
                                per_msg=8 if q else 30, maxsched=40 if q else 300)
     ctx.random_validate("smpdev", 32 if q else 480, 3 if q else 6)
     ctx.random_validate("smpdeg", 32, 1)
-    ctx.random_validate("smpcount", 80, 1)
+    ctx.random_validate("smpcount", 128, 1)
     ctx.random_validate("smptlv", 64, 1)
     # fragments are untrusted input too: the fragment model's schedules (nested, foreign, other-format pieces)
     frag_model(ctx, sender=False)
